@@ -13,6 +13,7 @@ CONSTANTS
   Deterministic = FALSE
   Preamble <- NoPreamble
   Traffic = FALSE
+  Faults = FALSE
   Emit = FALSE
 VIEW MCView
 PROPERTY P_C08_SoftStopCompletes
